@@ -220,6 +220,17 @@ def rule_r4(p, res):
         "NonUniformScale": ("recip", "scale"),
         "Rotation": ("inv", "rotation_matrix"),
     }
+    # the matrix inverse itself is the generic one (np.linalg.inv of the homogeneous matrix) for the whole family: a class that
+    # brings its own closed form is outside what this rule has confirmed
+    hom = p.cls("Homogeneous")
+    own_inv = sorted(c_.name for c_ in p.descendants(hom) if "_h_matrix_pseudoinverse" in c_.methods)
+    if own_inv != ["Homogeneous"]:
+        raise AnalysisError("C04.R4: %s define(s) a closed-form _h_matrix_pseudoinverse that is not in the confirmed table (only Homogeneous inverts, with np.linalg.inv): "
+                            "the inverse of that class is unconfirmed, no verdict" % [x for x in own_inv if x != "Homogeneous"])
+    hi = hom.methods["_h_matrix_pseudoinverse"]
+    r.instance(hi)
+    rr_ = returns_of(hi.node)
+    r.check(len(rr_) == 1 and str(norm(rr_[0].value)) in ("np.linalg.inv(self.h_matrix)", "np.linalg.pinv(self.h_matrix)"), hi, hi.node, "the generic inverse matrix must be the inverse of the current h_matrix")
     for cname, (kind, attr) in specs.items():
         c = p.cls(cname)
         f = c.methods.get("pseudoinverse")
